@@ -690,6 +690,62 @@ def untyped_message(draw, inv, codes):
 
 
 # --------------------------------------------------------------------------
+def _enc_tree(avps):
+    return b"".join(R.enc_avp(a.code, a.vendor, a.flags & ~0x80 if not a.vendor else a.flags,
+                              a.data if a.children is None else _enc_tree(a.children)) for a in avps)
+
+
+def check_undeclared_member_carried(inv: Inv, spec, which, rec: Recorder):
+    """A received message carries, inside one of its grouped AVPs, a member the container class does not declare
+    (a vendor extension, say): decoding and encoding again must carry it over unchanged - whether or not the
+    container class happens to declare room for such AVPs."""
+    from diameter.message import Message
+    k = inv.by_name[spec["cls"]]
+    if uses_bad_class(inv, spec):
+        rec.excluded["class-with-static-finding"] += 1
+        return
+    try:
+        obj = build_obj(inv, spec)
+        obj.header.hop_by_hop_identifier, obj.header.end_to_end_identifier = 0x11223344, 0x55667788
+        buf = obj.as_bytes()
+        hdr, tree = R.parse_message(buf, R.dict_is_grouped)
+    except Exception:
+        rec.excluded["undeclared-member:sequential-encode-raises"] += 1
+        return
+    declared = {(d.avp_code, d.vendor_id): d for d in k.avp_def if hasattr(d, "avp_code")}
+    groups = []
+
+    def collect(avps, defs):
+        for a in avps:
+            d = defs.get((a.code, a.vendor))
+            if a.children is not None and d is not None and getattr(d, "type_class", None) is not None:
+                groups.append((a, d.type_class))
+                collect(a.children, {(x.avp_code, x.vendor_id): x for x in d.type_class.avp_def if hasattr(x, "avp_code")})
+    collect(tree, declared)
+    if not groups:
+        rec.case(None, ["undeclared-member:no-container-set"])
+        return
+    target, tclass = groups[which % len(groups)]
+    extra = R.parse_avps(R.enc_avp(16777000 + which % 7, 0, 0x00, b"ext" + bytes([which % 256])))[0]
+    target.children.append(extra)
+    wire = R.enc_message(hdr["version"], hdr["flags"], hdr["code"], hdr["app_id"], hdr["hbh"], hdr["e2e"], _enc_tree(tree))
+    case = {"undeclared_member": True, "spec": spec, "which": which}
+    try:
+        again = Message.from_bytes(wire).as_bytes()
+    except Exception as e:
+        rec.violation(f"C03/undeclared-member/raises/{type(e).__name__}", case, f"{k.__name__}: {e!r}"[:300])
+        return
+    has_room = "additional_avps" in {f.name for f in dataclasses.fields(tclass)} if dataclasses.is_dataclass(tclass) else hasattr(tclass, "additional_avps")
+    if again != wire:
+        rec.violation("C03/undeclared-member/dropped" if len(again) < len(wire) else "C03/undeclared-member/changed", case,
+                      f"{k.__name__}: a member that {tclass.__name__} does not declare, received inside that grouped AVP, is "
+                      f"not carried over: {len(wire)} bytes received, {len(again)} bytes after decode + encode "
+                      f"({tclass.__name__} {'has' if has_room else 'has no'} additional_avps field)")
+    rec.case(fp("um", hash(wire)), ["mode:undeclared-member", f"undeclared-member:container-has-room:{has_room}",
+                                    f"undeclared-member:depth:{min(target.depth, 3)}"],
+             sample=lambda: {"class": k.__name__, "container": tclass.__name__, "wire": wire.hex()[:160]})
+
+
 def check_concurrent(inv: Inv, t, rec: Recorder):
     """Typed messages are decoded (and one is built and encoded) by two or three threads at once, from the module
     state of a fresh process: every thread's result is the one it gets when the same calls run one after the other."""
@@ -806,6 +862,11 @@ def shard_main(shard, nshards, tier, scale):
     n_un = int((8000 if thorough else 500) * scale)
     hyp.run_given(untyped_message(inv, codes), lambda ms: check_untyped(inv, ms, rec), n_un,
                   derive_seed(PID, "untyped", shard), rec=rec)
+    # undeclared members inside grouped AVPs of received messages
+    ustrat = st.tuples(st.sampled_from(msgs_only).flatmap(lambda k: obj_spec(inv, k, 0, mode="all")), st.integers(0, 50))
+    hyp.run_given(ustrat, lambda t: check_undeclared_member_carried(inv, t[0], t[1], rec),
+                  int((4000 if thorough else 300) * scale), derive_seed(PID, "undeclared-member", shard), rec=rec)
+
     # concurrent use (last: the preemption points slow the codec down)
     info = CT.install_points()
     if shard == 0:
@@ -840,7 +901,7 @@ def run(tier, scale=1.0):
     rec.extra["definitions_excluded_by_static_findings"] = len(inv.bad_defs)
     if missing:
         rec.extra["definitions_not_covered"] = [".".join(m) for m in missing[:20]]
-    required = {"mode:concurrent": 1, "concurrent:same-class:True": 1, "concurrent:tasks:3": 1, "concurrent:switches:6": 1, "mode:encode-after-failed-encode": 1, "failed-encode:raised": 1, "mode:change-after-encode": 1, "mode:single": 1, "mode:subset": 1, "mode:all": 1, "mode:none": 1, "kind:container": 1,
+    required = {"mode:undeclared-member": 1, "undeclared-member:container-has-room:False": 1, "undeclared-member:container-has-room:True": 1, "mode:concurrent": 1, "concurrent:same-class:True": 1, "concurrent:tasks:3": 1, "concurrent:switches:6": 1, "mode:encode-after-failed-encode": 1, "failed-encode:raised": 1, "mode:change-after-encode": 1, "mode:single": 1, "mode:subset": 1, "mode:all": 1, "mode:none": 1, "kind:container": 1,
                 "kind:message": 1, "kind:untyped": 1, "with-extra": 1, "extra-code-collision": 1, "nest:4": 1,
                 "untyped:repeat": 1, "untyped:grouped": 1}
     rc = finish(rec, tier=tier, level="exploration", rule=RULE, assumptions=ASSUME, t0=t0,
@@ -857,7 +918,9 @@ def replay(doc):
     inv = Inv()
     static_check(inv, rec)
     case = doc["case"]
-    if case.get("concurrent"):
+    if case.get("undeclared_member"):
+        check_undeclared_member_carried(inv, case["spec"], case["which"], rec)
+    elif case.get("concurrent"):
         CT.install_points()
         check_concurrent(inv, (case["a"], case["b"], False, case["seed"], case["p"]), rec)
     elif "cls" in case:
